@@ -435,7 +435,11 @@ func wireCodes(p *core.Prog, r *core.Report, rule string, groups ...string) {
 	sort.Strings(names)
 	for _, n := range names {
 		got, ok := constVal(p, n)
-		r.Check(ok && got == spec.WireCodes[n], rule, "constants", fmt.Sprintf("%s = %#02x (protocol specification)", n, spec.WireCodes[n]), "-",
+		if !ok {
+			r.Errorf("constant %s does not resolve (renamed or removed): cannot decide its wire value", n)
+			continue
+		}
+		r.Check(got == spec.WireCodes[n], rule, "constants", fmt.Sprintf("%s = %#02x (protocol specification)", n, spec.WireCodes[n]), "-",
 			"the wire value equals the specified code point", fmt.Sprintf("constant is %#02x (resolved=%v), the protocol specifies %#02x: the bytes on the wire mean something else to every other implementation", got, ok, spec.WireCodes[n]))
 	}
 }
